@@ -281,8 +281,11 @@ class Ctx:
         ev = dict(property_id=self.pid, tier=self.tier, seed=self.seed, level=level, coverage=cov,
                   assumptions=self.assumptions, wall_s=round(time.time() - self.t0, 1), violations=nviol,
                   known_findings_reported=self.known, notes=self.notes)
-        os.makedirs(os.path.join(VERIF, 'evidence'), exist_ok=True)
-        json.dump(ev, open(os.path.join(VERIF, 'evidence', self.pid + '.json'), 'w'), indent=1)
+        if REPO == '/repo':
+            os.makedirs(os.path.join(VERIF, 'evidence'), exist_ok=True)
+            json.dump(ev, open(os.path.join(VERIF, 'evidence', self.pid + '.json'), 'w'), indent=1)
+        else:   # a scratch copy is being checked (mutation testing): never touch the committed evidence
+            json.dump(ev, open(os.path.join(self.out, 'evidence_scratch.json'), 'w'), indent=1)
         for k in self.known:
             print('KNOWN-FINDING: property=%s %s' % (self.pid, k))
         for v in self.violations:
@@ -349,4 +352,9 @@ def main():
         sys.exit(rc)
     except ToolError as ex:
         print('TOOL-ERROR:', ex)
+        sys.exit(2)
+    except Exception:
+        import traceback
+        print('TOOL-ERROR: internal error of the driver')
+        print(traceback.format_exc())
         sys.exit(2)
